@@ -105,6 +105,11 @@ def gen(seed, tier, want=None):
                     for j in range(0, jmax + 1, jstep):
                         scen.append(Scenario(name, disp, setup, acts, [P] * i + [Q] * 70 + [P] * j + [R] * 70 + [P] * 70))
                         scen.append(Scenario(name, disp, setup, acts, [P] * i + [Q] * j + [P] * 70 + [R] * 70 + [Q] * 70))
+                # late split points of P (the tail of a call: unlock and whatever follows it) against an early pause of Q
+                if acts[P][0] != 1:
+                    for i in range(imax + 1, 34):
+                        for j in range(0, jmax + 5, 2):
+                            scen.append(Scenario(name, disp, setup, acts, [P] * i + [Q] * j + [P] * 70 + [R] * 70 + [Q] * 70))
         for _ in range(per * 2):
             ln = rnd.randint(5, 70)
             # biased random: runs of the same activity of random length
